@@ -21,7 +21,8 @@ from .. import pipeline as pl
 
 from ai_edge_quantizer import quantizer
 
-THEOREMS = ["C14.caller_qsv_unchanged", "C14.quantize_depends_on_exported_recipe_only", "C14.calibrate_depends_on_exported_recipe_only"]
+THEOREMS = ["C14.caller_qsv_unchanged", "C14.quantize_depends_on_exported_recipe_only", "C14.calibrate_depends_on_exported_recipe_only",
+            "C14.quantize_after_sessions_depends_on_samples_only"]
 
 CHILD = r"""
 import sys, pickle, hashlib, copy, warnings
